@@ -58,18 +58,18 @@ def prepared(ctx):
     ops = {c["act"]["op"] for c in cases}
     if ops != {"init", "scoped_init", "on_wall", "decompose", "intermolecular", "synthesis"}:
         raise vlib.ToolError("vacuous export: reactions %s" % sorted(ops))
-    if q:
-        cases = cases[ctx.seed % 3::3]
+    # (quick: every third pair of the 2-molecule model; thorough: every fourth pair of the 3-molecule model)
+    cases = cases[ctx.seed % 3::3] if q else cases[ctx.seed % 4::4]
     cpath = os.path.join(ctx.work, "cro.cases.ndjson")
     with open(cpath, "w") as f:
         for c in cases:
             f.write(json.dumps(c) + "\n")
     vlib.log("[case] cro: %d (state, reaction) pairs exported" % len(cases))
     tr = os.path.join(ctx.work, "cro-enum.trace.ndjson")
-    ctx.harness("cro", "replay", **{"in": cpath, "out": tr, "seed": ctx.seed, "seeds": 2 if q else 4})
+    ctx.harness("cro", "replay", **{"in": cpath, "out": tr, "seed": ctx.seed, "seeds": 2})
     ctx.validate("Trace_Cro", cfg_trace_cro(99), tr, "cro-enum", CRO_DESCRIBE, {"driver": "cro"}, timeout=3000)
     tr = os.path.join(ctx.work, "cro-random.trace.ndjson")
-    ctx.harness("cro", "random", out=tr, seed=ctx.seed, n=6000 if q else 150000, maxe=40 if q else 120)
+    ctx.harness("cro", "random", out=tr, seed=ctx.seed, n=6000 if q else 60000, maxe=40 if q else 120)
     ctx.validate("Trace_Cro", cfg_trace_cro(99), tr, "cro-random", CRO_DESCRIBE, {"driver": "cro"}, timeout=3000)
 
 
